@@ -4,16 +4,28 @@
 //@ item WatchedPath::recursive
 //@ header
     pub fn recursive(path: PathS) -> (r: WatchedPath)
-        ensures r.path == path && r.recursive, // OBL:C13.watched_path.constructors_record_the_mode_asked_for
+        ensures r.path == path && r.recursive, // OBL:C13+C01.watched_path.constructors_record_the_mode_asked_for
 //@ item WatchedPath::non_recursive
 //@ header
     pub fn non_recursive(path: PathS) -> (r: WatchedPath)
-        ensures r.path == path && !r.recursive, // OBL:C13.watched_path.constructors_record_the_mode_asked_for
+        ensures r.path == path && !r.recursive, // OBL:C13+C01.watched_path.constructors_record_the_mode_asked_for
 //@ item WatchedPath::from_pathbuf
 //@ header
     // a bare path means a recursive watch
     pub fn from(path: PathS) -> (r: WatchedPath)
-        ensures r.path == path && r.recursive, // OBL:C13.watched_path.constructors_record_the_mode_asked_for
+        ensures r.path == path && r.recursive, // OBL:C13+C01.watched_path.constructors_record_the_mode_asked_for
+//@ item WatchedPath::from_str
+//@ header
+    pub fn from_str(path: PathS) -> (r: WatchedPath)
+        ensures r.path == path && r.recursive, // OBL:C13+C01.watched_path.constructors_record_the_mode_asked_for
+//@ item WatchedPath::from_string
+//@ header
+    pub fn from_string(path: PathS) -> (r: WatchedPath)
+        ensures r.path == path && r.recursive, // OBL:C13+C01.watched_path.constructors_record_the_mode_asked_for
+//@ item WatchedPath::from_path
+//@ header
+    pub fn from_path(path: PathS) -> (r: WatchedPath)
+        ensures r.path == path && r.recursive, // OBL:C13+C01.watched_path.constructors_record_the_mode_asked_for
 //@ item Watcher::create
 //@ header
     pub fn create(self, f: Callback) -> (r: CreateRes)
